@@ -159,7 +159,39 @@ func genC01Attack(t *rapid.T, rootName string, l string) string {
 	}
 }
 
+// c01Disguise rewrites some ".." components into names that only become ".." if something after the confinement step
+// drops or folds a byte (NUL, blanks, control characters, zero-width or full-width forms): as they stand they are
+// ordinary (mostly nonexistent) names inside the root.
+func c01Disguise(t *rapid.T, p string, l string) string {
+	parts := strings.Split(p, "/")
+	for i, s := range parts {
+		if s != ".." || rapid.IntRange(0, 2).Draw(t, fmt.Sprintf("%s-dg%d", l, i)) == 0 {
+			continue
+		}
+		x := rapid.SampledFrom([]string{"\x00", "\x00", "\x00", " ", "\t", "\r", "\n", "\x7f", "\u200b", "\xc2\xa0"}).Draw(t, fmt.Sprintf("%s-dgb%d", l, i))
+		switch rapid.IntRange(0, 3).Draw(t, fmt.Sprintf("%s-dgp%d", l, i)) {
+		case 0:
+			parts[i] = ".." + x
+		case 1:
+			parts[i] = "." + x + "."
+		case 2:
+			parts[i] = x + ".."
+		default:
+			parts[i] = "\uff0e\uff0e" // full-width dots
+		}
+	}
+	return strings.Join(parts, "/")
+}
+
 func genC01Path(t *rapid.T, rootName string, pool hx.PathPool, l string) string {
+	p := genC01PathPlain(t, rootName, pool, l)
+	if strings.Contains(p, "..") && len(p) < 4096 && rapid.IntRange(0, 5).Draw(t, l+"-disguise") == 0 {
+		p = c01Disguise(t, p, l)
+	}
+	return p
+}
+
+func genC01PathPlain(t *rapid.T, rootName string, pool hx.PathPool, l string) string {
 	if rapid.IntRange(0, 4).Draw(t, l+"-attack") == 0 {
 		return genC01Attack(t, rootName, l)
 	}
